@@ -215,7 +215,17 @@ func init() {
 			return okz(out.Big()), ""
 		},
 		orac: func(c *tcase) string { return okz(symmetric(tr(ai(c, 2), c.args[1]), c.args[0])) }})
-	register(&opDef{name: "mod.quo", weight: 6, gen: genMod(1, false),
+	register(&opDef{name: "mod.quo", weight: 6,
+		gen: func(r *vh.Rng, g *genCtx) *tcase {
+			c := genMod(1, false)(r, g)
+			// Quo sizes the quotient like the modulus; operands whose quotient does not fit are out of contract
+			lim := new(big.Int).Lsh(c.args[0], uint(c.args[0].BitLen()))
+			if c.args[1].Cmp(lim) >= 0 {
+				c.args[1] = new(big.Int).Mod(c.args[1], lim)
+				c.args[2] = zi(g.capOK(r, c.args[1]))
+			}
+			return c
+		},
 		impl: modImpl1(func(m *numct.Modulus, o, x *numct.Nat) ct.Bool { m.Quo(o, x); return ct.True }),
 		orac: func(c *tcase) string {
 			m := c.args[0]
@@ -249,6 +259,12 @@ func init() {
 	}
 	register(&opDef{name: "mod.inv", weight: 14, gen: genMod(1, false), key: reusedOut("mod.inv"),
 		impl: modImpl1(func(m *numct.Modulus, o, x *numct.Nat) ct.Bool { return m.ModInv(o, x) }),
+		rel: func(c *tcase, impl, model string) string {
+			if impl == model || c.args[0].Cmp(one) == 0 { // modulo 1 every residue is a unit and 0 = 1: no claim
+				return ""
+			}
+			return diffDetail("implementation", impl, "model", model)
+		},
 		orac: func(c *tcase) string {
 			m := c.args[0]
 			if m.Cmp(one) == 0 {
@@ -263,6 +279,12 @@ func init() {
 		trivial: func(c *tcase, impl string) bool { return impl == "refuse" }})
 	register(&opDef{name: "mod.div", weight: 10, gen: genMod(2, false),
 		impl: modImpl2(func(m *numct.Modulus, o, x, y *numct.Nat) ct.Bool { return m.ModDiv(o, x, y) }),
+		rel: func(c *tcase, impl, model string) string {
+			if impl == model || c.args[0].Cmp(one) == 0 {
+				return ""
+			}
+			return diffDetail("implementation", impl, "model", model)
+		},
 		// predicate: a returned u solves y*u = x (mod m); division by a unit is never refused
 		pred: func(c *tcase, impl string) string {
 			m, x, y := c.args[0], tr(ai(c, 2), c.args[1]), tr(ai(c, 4), c.args[3])
@@ -350,7 +372,12 @@ func init() {
 			return c
 		},
 		impl: modImpl1(func(m *numct.Modulus, o, x *numct.Nat) ct.Bool { return m.ModSqrt(o, x) }),
-		rel:  func(c *tcase, impl, model string) string { return sqrtRel(impl, model) },
+		rel: func(c *tcase, impl, model string) string {
+			if c.args[0].Cmp(two) == 0 {
+				return "" // modulus 2 is not an odd prime; the code panics (saferith refuses even moduli), no claim
+			}
+			return sqrtRel(impl, model)
+		},
 		pred: func(c *tcase, impl string) string {
 			if c.args[0].Cmp(two) == 0 && impl == "panic" {
 				return "" // modulus 2: saferith refuses even moduli by panicking; not an odd prime
@@ -573,6 +600,23 @@ func init() {
 			}
 			return okz(out.Big()), w.changed()
 		},
+		rel: func(c *tcase, impl, model string) string {
+			if impl == model {
+				return ""
+			}
+			p, q := tr(ai(c, 1), c.args[0]), tr(ai(c, 3), c.args[2])
+			mp, mq := tr(ai(c, 5), c.args[4]), tr(ai(c, 7), c.args[6])
+			if p.Cmp(one) == 0 || q.Cmp(one) == 0 {
+				return "" // a modulus 1: no claim
+			}
+			// an unreduced second residue is outside the documented contract: any value with the right
+			// residues is accepted
+			if v := parseOk(impl); v != nil && parseOk(model) != nil && p.Sign() > 0 && q.Sign() > 0 && mq.Cmp(q) >= 0 &&
+				bmod(v[0], p).Cmp(bmod(mp, p)) == 0 && bmod(v[0], q).Cmp(bmod(mq, q)) == 0 {
+				return ""
+			}
+			return diffDetail("implementation", impl, "model", model)
+		},
 		pred: func(c *tcase, impl string) string {
 			p, q := tr(ai(c, 1), c.args[0]), tr(ai(c, 3), c.args[2])
 			mp, mq := tr(ai(c, 5), c.args[4]), tr(ai(c, 7), c.args[6])
@@ -708,6 +752,22 @@ func init() {
 		}
 		return ""
 	}
-	register(&opDef{name: "crt.multi.serial", weight: 8, gen: genMulti, impl: multiImpl(true), pred: multiPred})
-	register(&opDef{name: "crt.multi.parallel", weight: 8, gen: genMulti, impl: multiImpl(false), pred: multiPred})
+	multiRel := func(c *tcase, impl, model string) string {
+		if impl == model {
+			return ""
+		}
+		k := len(c.args) / 2
+		reduced := true
+		for i := 0; i < k; i++ {
+			if c.args[k+i].Cmp(c.args[i]) >= 0 {
+				reduced = false
+			}
+		}
+		if !reduced && parseOk(impl) != nil && parseOk(model) != nil && multiPred(c, impl) == "" {
+			return "" // unreduced residues: any value with the right residues is accepted
+		}
+		return diffDetail("implementation", impl, "model", model)
+	}
+	register(&opDef{name: "crt.multi.serial", weight: 8, gen: genMulti, impl: multiImpl(true), pred: multiPred, rel: multiRel})
+	register(&opDef{name: "crt.multi.parallel", weight: 8, gen: genMulti, impl: multiImpl(false), pred: multiPred, rel: multiRel})
 }
